@@ -566,4 +566,309 @@ theorem SimV.consumed {w : World} {v v' : Iov} {g : List UInt8} {toks : List Bac
         conv => lhs; rw [hsplit]
         simp [List.count_append, count_hole_map_byte'] }
 
+/-! ### One emit, one step's emits -/
+
+/-- Where the borrowed appends of a step take their bytes: caller buffer `b`, from offset `off`. -/
+def SrcOk (w : World) (src : Slice) (es : List Emit) : Prop :=
+  ∀ e ∈ es, e.method = .borrow → ∀ bs, e.op = .append bs → ∃ b, src.region = .ext b ∧ InBuf w b src.off bs
+
+theorem applyEmit_sim {w : World} {v : Iov} {g : List UInt8} {toks : List Backref} {q : Pipe}
+    (i : Nat) (hv : w.iov i = some v) (h : SimV w v g toks q) (e : Emit) (src : Slice)
+    (hok : OpOk q e.op) (hsrc : SrcOk w src [e]) :
+    ∃ w' v' toks', applyEmit w i toks e src = some (w', toks') ∧ w'.iov i = some v' ∧
+      SimV w' v' g toks' (q.apply e.op) ∧ w'.exts = w.exts := by
+  obtain ⟨op, m⟩ := e
+  cases op with
+  | append bs =>
+    cases m with
+    | copy =>
+      obtain ⟨w', v', h1, h2, h3, h4⟩ := World.pushCopy_total w i v bs hv h.inv
+      exact ⟨w', v', toks, by simp [applyEmit, h1], h2, h.append h3, h4⟩
+    | borrow =>
+      obtain ⟨b, hb, hin⟩ := hsrc ⟨.append bs, .borrow⟩ (by simp) rfl bs rfl
+      have hl : LentOk w { src with len := bs.length } bs := by
+        have := hin.lentOk
+        obtain ⟨r, o, l⟩ := src
+        simp only at hb
+        subst hb
+        exact this
+      obtain ⟨w', v', h1, h2, h3, h4⟩ := World.pushAt_total w i v _ bs hv h.inv hl
+      exact ⟨w', v', toks, by simp [applyEmit, h1], h2, h.append h3, h4⟩
+  | register n =>
+    obtain ⟨w', v', b, h1, h2, h3, h4⟩ := h.register i hv n hok
+    exact ⟨w', v', toks ++ [b], by simp [applyEmit, h1], h2, h3, h4⟩
+  | fill id bs =>
+    obtain ⟨w', v', b, h0, h1, h2, h3, h4⟩ := h.fill i hv id bs hok
+    exact ⟨w', v', toks, by simp [applyEmit, h0, h1], h2, h3, h4⟩
+
+theorem applyStep_sim (i : Nat) (g : List UInt8) (src : Slice) (es : List Emit) :
+    ∀ (w : World) (v : Iov) (toks : List Backref) (q : Pipe), w.iov i = some v → SimV w v g toks q →
+      OpsOk q (es.map (·.op)) → SrcOk w src es →
+      ∃ w' v' toks', applyStep w i toks es src = some (w', toks') ∧ w'.iov i = some v' ∧
+        SimV w' v' g toks' (q.run (es.map (·.op))) ∧ w'.exts = w.exts := by
+  induction es with
+  | nil =>
+    intro w v toks q hv h _ _
+    exact ⟨w, v, toks, rfl, hv, h, rfl⟩
+  | cons e t ih =>
+    intro w v toks q hv h hok hsrc
+    obtain ⟨hok1, hok2⟩ := hok
+    obtain ⟨w1, v1, toks1, h1, h2, h3, h4⟩ := applyEmit_sim i hv h e src hok1
+      (fun x hx => hsrc x (by simp only [List.mem_singleton] at hx; simp [hx]))
+    obtain ⟨w2, v2, toks2, g1, g2, g3, g4⟩ := ih w1 v1 toks1 _ h2 h3 hok2
+      (fun x hx hb bs hop => by
+        obtain ⟨b, hb1, hb2⟩ := hsrc x (by simp [hx]) hb bs hop
+        exact ⟨b, hb1, hb2.of_exts h4⟩)
+    refine ⟨w2, v2, toks2, ?_, g2, ?_, g4.trans h4⟩
+    · simp only [applyStep, h1]; exact g1
+    · simpa [Pipe.run] using g3
+
+/-! ### Admissibility of the encoder's emits -/
+
+open Woodpile.Hcobs.EncProof in
+theorem run_total (q : Pipe) (ops : List Woodpile.Pipe.Op) : (q.run ops).total = q.total.run ops := by
+  induction ops generalizing q with
+  | nil => rfl
+  | cons op t ih =>
+    simp only [Pipe.run, List.foldl_cons] at ih ⊢
+    rw [ih, Woodpile.Pipe.apply_total]
+
+theorem count_hole_total (q : Pipe) (id : Nat) :
+    q.total.cells.count (Cell.hole id) = q.cells.count (Cell.hole id) := by
+  simp [Woodpile.Pipe.Pipe.total, List.count_append, count_hole_map_byte']
+
+theorem opsOk_append (q : Pipe) (a b : List Woodpile.Pipe.Op) :
+    OpsOk q (a ++ b) ↔ OpsOk q a ∧ OpsOk (q.run a) b := by
+  induction a generalizing q with
+  | nil => simp [OpsOk, Pipe.run]
+  | cons op t ih =>
+    simp only [List.cons_append, OpsOk, ih, Pipe.run, List.foldl_cons, and_assoc]
+
+theorem opsOk_appends (q : Pipe) (ops : List Woodpile.Pipe.Op) (h : ops.all Woodpile.Pipe.Op.isAppend = true) :
+    OpsOk q ops := by
+  induction ops generalizing q with
+  | nil => trivial
+  | cons op t ih =>
+    simp only [List.all_cons, Bool.and_eq_true] at h
+    cases op with
+    | append bs => exact ⟨trivial, ih _ h.2⟩
+    | register n => simp [Woodpile.Pipe.Op.isAppend] at h
+    | fill id bs => simp [Woodpile.Pipe.Op.isAppend] at h
+
+theorem count_run_appends (q : Pipe) (ops : List Woodpile.Pipe.Op) (h : ops.all Woodpile.Pipe.Op.isAppend = true)
+    (id : Nat) : (q.run ops).cells.count (Cell.hole id) = q.cells.count (Cell.hole id) := by
+  rw [Woodpile.Pipe.run_appendOnly q ops h]
+  simp [List.count_append, count_hole_map_byte']
+
+open Woodpile.Hcobs.EncProof
+
+theorem all_isAppend_of (A : List Emit) (hA : ∀ e ∈ A, Woodpile.Pipe.Op.isAppend e.op = true) :
+    (A.map (·.op)).all Woodpile.Pipe.Op.isAppend = true := by
+  simp only [List.all_map, List.all_eq_true]
+  exact fun e he => hA e he
+
+theorem closeE_opsOk (p : Params) (q : Pipe) (s2 : EncState) (hk1 : 1 ≤ s2.brLen) (hk2 : s2.brLen ≤ 2)
+    (hc : q.cells.count (Cell.hole s2.backref) = s2.brLen) : OpsOk q ((closeE p s2).map (·.op)) := by
+  have hl : ((header p false s2.cur).take s2.brLen).length = s2.brLen := by
+    simp [header]; omega
+  simp only [closeE, Enc.closeHeader, List.map_cons, List.map_nil, OpsOk, OpOk, and_true]
+  exact ⟨⟨by omega, by omega⟩, by omega⟩
+
+theorem appends_close_opsOk (p : Params) (q : Pipe) (A : List Emit)
+    (hA : ∀ e ∈ A, Woodpile.Pipe.Op.isAppend e.op = true) (s2 : EncState) (hk1 : 1 ≤ s2.brLen)
+    (hk2 : s2.brLen ≤ 2) (hc : q.cells.count (Cell.hole s2.backref) = s2.brLen) :
+    OpsOk q ((A ++ closeE p s2).map (·.op)) := by
+  rw [List.map_append, opsOk_append]
+  refine ⟨opsOk_appends _ _ (all_isAppend_of A hA), closeE_opsOk p _ s2 hk1 hk2 ?_⟩
+  rw [count_run_appends _ _ (all_isAppend_of A hA)]
+  exact hc
+
+theorem mem_append_isAppend {A B : List Emit} (hA : ∀ e ∈ A, Woodpile.Pipe.Op.isAppend e.op = true)
+    (hB : ∀ e ∈ B, Woodpile.Pipe.Op.isAppend e.op = true) :
+    ∀ e ∈ A ++ B, Woodpile.Pipe.Op.isAppend e.op = true := by
+  intro e he
+  rcases List.mem_append.mp he with h | h
+  · exact hA e h
+  · exact hB e h
+
+/-- The emits of one `consume_once` call are admissible on the (possibly drained) output pipe:
+`backfill_or_panic` finds its placeholder, with the right size. -/
+theorem once_opsOk (p : Params) {s : EncState} {nid : Nat} {q0 : Pipe} {σ : BS}
+    (hrel : Rel p s nid q0 σ) (q : Pipe) (hq : q.total = q0) (m : Method) (input : List UInt8) :
+    OpsOk q ((Enc.consumeOnce p s nid m input).emits.map (·.op)) := by
+  obtain ⟨_, _, _, hbr, _, hq0⟩ := hrel
+  have hcnt : q.cells.count (Cell.hole s.backref) = s.brLen := by
+    rw [← count_hole_total, hq, hq0, count_hole_pipeOf]
+  have hk : 1 ≤ s.brLen ∧ s.brLen ≤ 2 := by cases hf : σ.first <;> simp [hbr, hf]
+  have hfbr : (flushS s).brLen = s.brLen ∧ (flushS s).backref = s.backref := by
+    unfold flushS; split <;> exact ⟨rfl, rfl⟩
+  by_cases hA : s.mid ∧ input.head? = some FD
+  · rw [consumeOnce_mid p s nid m input hA]
+    exact closeE_opsOk p q s hk.1 hk.2 hcnt
+  · cases hfs : findStuff (input.take ((flushS s).maxChunk - (flushS s).cur)) with
+    | some i =>
+      rw [consumeOnce_stuff p s nid m input hA hfs]
+      exact appends_close_opsOk p q _ (mem_append_isAppend (flushE_isAppend s) (writeE_isAppend m _ _)) _
+        (by simp only; rw [hfbr.1]; exact hk.1) (by simp only; rw [hfbr.1]; exact hk.2)
+        (by simp only; rw [hfbr.1, hfbr.2]; exact hcnt)
+    | none =>
+      by_cases hfull : (input.take ((flushS s).maxChunk - (flushS s).cur)).length
+          = (flushS s).maxChunk - (flushS s).cur
+      · rw [consumeOnce_full p s nid m input hA hfs hfull]
+        exact appends_close_opsOk p q _ (mem_append_isAppend (flushE_isAppend s) (writeE_isAppend m _ _)) _
+          (by simp only; rw [hfbr.1]; exact hk.1) (by simp only; rw [hfbr.1]; exact hk.2)
+          (by simp only; rw [hfbr.1, hfbr.2]; exact hcnt)
+      · rw [consumeOnce_part p s nid m input hA hfs hfull]
+        exact opsOk_appends _ _ (all_isAppend_of _
+          (mem_append_isAppend (flushE_isAppend s) (writeE_isAppend m _ _)))
+
+theorem finish_opsOk (p : Params) {s : EncState} {nid : Nat} {q0 : Pipe} {σ : BS}
+    (hrel : Rel p s nid q0 σ) (q : Pipe) (hq : q.total = q0) :
+    OpsOk q ((Enc.finish p s).map (·.op)) := by
+  obtain ⟨_, _, _, hbr, _, hq0⟩ := hrel
+  have hcnt : q.cells.count (Cell.hole s.backref) = s.brLen := by
+    rw [← count_hole_total, hq, hq0, count_hole_pipeOf]
+  have hk : 1 ≤ s.brLen ∧ s.brLen ≤ 2 := by cases hf : σ.first <;> simp [hbr, hf]
+  have hfbr : (flushS s).brLen = s.brLen ∧ (flushS s).backref = s.backref := by
+    unfold flushS; split <;> exact ⟨rfl, rfl⟩
+  rw [finish_eq, List.map_append, opsOk_append]
+  refine ⟨opsOk_appends _ _ (all_isAppend_of _ (flushE_isAppend s)), ?_⟩
+  have hl : ((header p false (flushS s).cur).take (flushS s).brLen).length = (flushS s).brLen := by
+    simp [header]; omega
+  simp only [Enc.closeHeader, List.map_cons, List.map_nil, OpsOk, OpOk, and_true]
+  rw [count_run_appends _ _ (all_isAppend_of _ (flushE_isAppend s)), hfbr.2, hl, hfbr.1]
+  exact ⟨by omega, hcnt⟩
+
+/-- Borrowed appends of a `consume_once` call are prefixes of its input. -/
+theorem once_borrow_prefix (p : Params) (s : EncState) (nid : Nat) (m : Method) (input : List UInt8) :
+    ∀ e ∈ (Enc.consumeOnce p s nid m input).emits, e.method = .borrow → ∀ bs, e.op = .append bs →
+      m = .borrow ∧ bs <+: input := by
+  have hflush : ∀ e ∈ flushE s, e.method = .borrow → False := by
+    intro e he hb
+    unfold flushE at he
+    split at he
+    · simp only [List.mem_singleton] at he; subst he; cases hb
+    · cases he
+  have hwrite : ∀ (n : Nat) (X : List UInt8), X <+: input → ∀ e ∈ writeE m n X, e.method = .borrow →
+      ∀ bs, e.op = .append bs → m = .borrow ∧ bs <+: input := by
+    intro n X hX e he hb bs hop
+    unfold writeE at he
+    split at he
+    · cases he
+    · simp only [List.mem_singleton] at he; subst he
+      simp only [Woodpile.Pipe.Op.append.injEq] at hop; subst hop; exact ⟨hb, hX⟩
+  have hclose : ∀ s2, ∀ e ∈ closeE p s2, ∀ bs, e.op = .append bs → False := by
+    intro s2 e he bs hop
+    simp only [closeE, Enc.closeHeader, List.mem_cons, List.not_mem_nil, or_false] at he
+    rcases he with rfl | rfl <;> cases hop
+  have ht1 : ∀ r, input.take r <+: input := fun r => List.take_prefix _ _
+  have ht2 : ∀ r k, (input.take r).take k <+: input :=
+    fun r k => List.IsPrefix.trans (List.take_prefix _ _) (List.take_prefix _ _)
+  intro e he hb bs hop
+  by_cases hA : s.mid ∧ input.head? = some FD
+  · rw [consumeOnce_mid p s nid m input hA] at he
+    exact (hclose _ e he bs hop).elim
+  · cases hfs : findStuff (input.take ((flushS s).maxChunk - (flushS s).cur)) with
+    | some i =>
+      rw [consumeOnce_stuff p s nid m input hA hfs] at he
+      simp only [List.mem_append] at he
+      rcases he with (he | he) | he
+      · exact (hflush e he hb).elim
+      · exact hwrite _ _ (ht2 _ _) e he hb bs hop
+      · exact (hclose _ e he bs hop).elim
+    | none =>
+      by_cases hfull : (input.take ((flushS s).maxChunk - (flushS s).cur)).length
+          = (flushS s).maxChunk - (flushS s).cur
+      · rw [consumeOnce_full p s nid m input hA hfs hfull] at he
+        simp only [List.mem_append] at he
+        rcases he with (he | he) | he
+        · exact (hflush e he hb).elim
+        · exact hwrite _ _ (ht1 _) e he hb bs hop
+        · exact (hclose _ e he bs hop).elim
+      · rw [consumeOnce_part p s nid m input hA hfs hfull] at he
+        simp only [List.mem_append] at he
+        rcases he with he | he
+        · exact (hflush e he hb).elim
+        · exact hwrite _ _ (ht2 _ _) e he hb bs hop
+
+/-! ### Whole calls -/
+
+theorem encFeed_zero (p : Params) (w : World) (i : Nat) (e : EncW) (m : Method) (base : Slice)
+    (input : List UInt8) (pos : Nat) : encFeed p 0 w i e m base input pos = some (w, e) := rfl
+
+theorem encFeed_nil (p : Params) (fuel : Nat) (w : World) (i : Nat) (e : EncW) (m : Method) (base : Slice)
+    (pos : Nat) : encFeed p fuel w i e m base [] pos = some (w, e) := by
+  cases fuel <;> simp [encFeed]
+
+theorem encFeed_succ (p : Params) (fuel : Nat) (w : World) (i : Nat) (e : EncW) (m : Method) (base : Slice)
+    (input : List UInt8) (pos : Nat) (hne : input ≠ []) :
+    encFeed p (fuel + 1) w i e m base input pos =
+      match applyStep w i e.toks (Enc.consumeOnce p e.st e.nid m input).emits
+          { base with off := base.off + pos, len := base.len - pos } with
+      | none => none
+      | some (w', toks') =>
+        encFeed p fuel w' i ⟨(Enc.consumeOnce p e.st e.nid m input).st,
+          (Enc.consumeOnce p e.st e.nid m input).nextId, toks'⟩ m base
+          (input.drop (Enc.consumeOnce p e.st e.nid m input).consumed)
+          (pos + (Enc.consumeOnce p e.st e.nid m input).consumed) := by
+  cases input with
+  | nil => exact absurd rfl hne
+  | cons b t => simp [encFeed]; rfl
+
+/-- One `encode` / `encode_copy` call on the structural iovec: it does not panic, and the iovec
+keeps representing the pipe on which the same emits are run. -/
+theorem encFeed_sim (p : Params) (hp : p.Valid) (i : Nat) (m : Method) (g : List UInt8) (base : Slice)
+    (fuel : Nat) :
+    ∀ (w : World) (v : Iov) (e : EncW) (q : Pipe) (σ : BS) (input : List UInt8) (pos : Nat),
+    w.iov i = some v → SimV w v g e.toks q → Rel p e.st e.nid q.total σ → σ.Inv p → σ.Inv2 →
+    (m = .borrow → ∃ b, base.region = .ext b ∧ InBuf w b (base.off + pos) input) →
+    ∃ w' v' e', encFeed p fuel w i e m base input pos = some (w', e') ∧ w'.iov i = some v' ∧
+      SimV w' v' g e'.toks (q.run ((Enc.feed p fuel e.st e.nid m input).2.2.map (·.op))) ∧
+      e'.st = (Enc.feed p fuel e.st e.nid m input).1 ∧ e'.nid = (Enc.feed p fuel e.st e.nid m input).2.1 ∧
+      w'.exts = w.exts := by
+  induction fuel with
+  | zero =>
+    intro w v e q σ input pos hv h _ _ _ _
+    exact ⟨w, v, e, rfl, hv, by simpa [feed_zero, Pipe.run] using h, rfl, rfl, rfl⟩
+  | succ fuel ih =>
+    intro w v e q σ input pos hv h hrel h1 h2 hbuf
+    by_cases hne : input = []
+    · subst hne
+      exact ⟨w, v, e, encFeed_nil .., hv, by simpa [feed_nil, Pipe.run] using h,
+        by simp [feed_nil], by simp [feed_nil], rfl⟩
+    · have hok := once_opsOk p hrel q rfl m input
+      have hsrc : SrcOk w { base with off := base.off + pos, len := base.len - pos }
+          (Enc.consumeOnce p e.st e.nid m input).emits := by
+        intro x hx hb bs hop
+        obtain ⟨hm, hpre⟩ := once_borrow_prefix p e.st e.nid m input x hx hb bs hop
+        obtain ⟨b, hb1, hb2⟩ := hbuf hm
+        exact ⟨b, hb1, hb2.prefix hpre⟩
+      obtain ⟨w1, v1, toks1, g1, g2, g3, g4⟩ := applyStep_sim i g _ _ w v e.toks q hv h hok hsrc
+      obtain ⟨hc, hrel'⟩ := consumeOnce_sim p hp e.st e.nid q.total σ m input hrel h1
+      obtain ⟨hc0, hc1, hfold⟩ := onceA_eq_fold p σ input hne h1
+      rw [← hc] at hc0 hc1 hfold
+      obtain ⟨h1', h2'⟩ := fold_inv p hp (input.take (Enc.consumeOnce p e.st e.nid m input).consumed) σ h1 h2
+      rw [← hfold] at h1' h2'
+      have hrel'' : Rel p (Enc.consumeOnce p e.st e.nid m input).st (Enc.consumeOnce p e.st e.nid m input).nextId
+          (q.run ((Enc.consumeOnce p e.st e.nid m input).emits.map (·.op))).total (onceA p σ input).1 := by
+        rw [run_total]; exact hrel'
+      obtain ⟨w2, v2, e2, k1, k2, k3, k4, k5, k6⟩ := ih w1 v1
+        ⟨(Enc.consumeOnce p e.st e.nid m input).st, (Enc.consumeOnce p e.st e.nid m input).nextId, toks1⟩
+        _ _ (input.drop (Enc.consumeOnce p e.st e.nid m input).consumed)
+        (pos + (Enc.consumeOnce p e.st e.nid m input).consumed) g2 g3 hrel'' h1' h2'
+        (by
+          intro hm
+          obtain ⟨b, hb1, hb2⟩ := hbuf hm
+          refine ⟨b, hb1, ?_⟩
+          have := (hb2.of_exts g4).drop _ hc1
+          rwa [Nat.add_assoc] at this)
+      refine ⟨w2, v2, e2, ?_, k2, ?_, ?_, ?_, k6.trans g4⟩
+      · rw [encFeed_succ p fuel w i e m base input pos hne, g1]
+        exact k1
+      · rw [feed_succ p fuel e.st e.nid m input hne]
+        simp only [List.map_append, Woodpile.Pipe.run_append]
+        exact k3
+      · rw [feed_succ p fuel e.st e.nid m input hne]; exact k4
+      · rw [feed_succ p fuel e.st e.nid m input hne]; exact k5
+
 end Woodpile.EncWorld
